@@ -60,6 +60,11 @@ def stage_gen_bv(chk, bins, types, n_bits, family, variants=("dbg-native",)):
             out = chk.run_harness(bins[v], ["replay", "--kind", "bv", "--types", ",".join(types), "--cases", p], st)
             if out:
                 chk.add_replay(out, st)
+            if "plain" in types:
+                st = "replay GenBV %s on %s: the support-structure layer (RankSupport, SelectSupport<Identity|Complement>, Transformation) answers as defined inside its domain" % (label, v)
+                out = chk.run_harness(bins[v], ["replay", "--kind", "support", "--cases", p], st)
+                if out:
+                    chk.add_replay(out, st)
     chk.cov["exhaustive"] = True
 
 
@@ -863,6 +868,10 @@ def check_C08(chk):
         for p, label in ((p1, "bits"), (p2, "family"), (p3, "spread")):
             replay_stage(chk, bins, v, ["replay", "--kind", "bv", "--types", "plain,sparse,rl", "--cases", p],
                          "bounds: every query x extreme arguments on GenBV %s, %s" % (label, v), hooks=True, oob_only=True)
+        for p, label in ((p1, "bits"), (p2, "family")):
+            replay_stage(chk, bins, v, ["replay", "--kind", "support", "--cases", p],
+                         "bounds: the support-structure layer (RankSupport, SelectSupport<Identity|Complement>, Transformation::bit/word) with arguments "
+                         "inside and outside the domain and with shorter parents, GenBV %s, %s" % (label, v), hooks=True, oob_only=True)
         replay_stage(chk, bins, v, ["replay", "--kind", "iter", "--cases", hist, "--contents", p1, "--wmcontents", wmc],
                      "bounds: iterator transition cover (incl. nth(huge)) on all iterator types, %s" % v, hooks=True, oob_only=True)
         replay_stage(chk, bins, v, ["replay", "--kind", "iter", "--cases", hist, "--contents", p3], "bounds: iterator cover on multi-word contents, %s" % v, hooks=True, oob_only=True)
